@@ -300,8 +300,8 @@ func memRun(seed int64, kind string, calls []string, fill byte) []memStep {
 				})
 			case "Verify":
 				t := tokens.Token{TokenType: tok.TokenType, Nonce: a.arg("arg.token", fmt.Sprintf("tok.nonce%d", len(steps)), tok.Nonce, spare),
-					Context: a.arg("arg.token", fmt.Sprintf("tok.context%d", len(steps)), tok.Context, spare),
-					KeyID:   a.arg("arg.token", fmt.Sprintf("tok.keyid%d", len(steps)), tok.KeyID, spare),
+					Context:       a.arg("arg.token", fmt.Sprintf("tok.context%d", len(steps)), tok.Context, spare),
+					KeyID:         a.arg("arg.token", fmt.Sprintf("tok.keyid%d", len(steps)), tok.KeyID, spare),
 					Authenticator: a.arg("arg.token", fmt.Sprintf("tok.auth%d", len(steps)), tok.Authenticator, spare)}
 				do(c, func() (string, string) { return resErr(verify(t)), resErr(verify(t)) })
 			case "KeyID", "Key":
